@@ -1178,6 +1178,18 @@ fn check_field(
                         ctx.report.violation("model", "C07:model-pipeline", format!("field {} ({}, {}): modelled pipeline {} differs from invert {}", spec.name, spec.kind.name(), spec.opt.name(), short(&presp), short(&resp)), cj(&[]));
                     }
                 }
+                // C07_segment_end_to_end: the TermInfos the modelled serialize_postings lays out are the real ones
+                let sresp = ctx.model.ask(&req.replacen("C07 invert", "C07 segment", 1));
+                if sresp == "bad-op" {
+                    ctx.report.violation("model", "C07:model-unavailable", "the Lean driver answers bad-op for segment".into(), cj(&[]));
+                } else {
+                    ctx.report.count("model:segment-requests");
+                    let real_tis: Vec<String> = terms.iter().map(|(_, ti)| format!("{}:{}:{}:{}:{}", ti.doc_freq, ti.postings_range.start, ti.postings_range.end, ti.positions_range.start, ti.positions_range.end)).collect();
+                    let real_tis = if real_tis.is_empty() { "-".to_string() } else { real_tis.join(";") };
+                    if sresp != real_tis {
+                        ctx.report.violation("model", "C07:model-segment-terminfos", format!("field {} ({}, {}): TermInfos of the segment {} model {}", spec.name, spec.kind.name(), spec.opt.name(), short(&real_tis), short(&sresp)), cj(&[]));
+                    }
+                }
             }
             let parts: Vec<&str> = resp.split('|').collect();
             if parts.len() != 3 {
